@@ -162,3 +162,36 @@ def stream_reader_uses(model: Model, entry_q: str = "sansldap._messages.unpack_l
             elif isinstance(n, (ast.Assign, ast.Return)) and n.value is not None and isinstance(n.value, ast.Name) and n.value.id == pname:
                 escapes.append(f"{fq}: {norm(n)[:60]}")
     return methods, escapes
+
+
+def lemma_no_silent_clamp(model: Model, run: Run, mr) -> None:
+    """T1: in the reader side of asn1.py every upper-bounded slice of the input is dominated by a
+    fact that the input is at least that long (slicing never raises: a short input would silently
+    yield fewer octets and a wrong length/tag/value)."""
+    from .facts import const_int
+    n_sites = 0
+    for fq, fi in list(model.functions.items()):
+        if fi.module != "sansldap.asn1" or isinstance(fi.node, ast.Lambda):
+            continue
+        if not (fi.name.startswith("_read") or fi.name.startswith("_unpack") or fi.name.startswith("_validate") or fi.cls == READER):
+            continue
+        fl = mr.flow_for(fi)
+        for n in walk_no_nested(fi.node):
+            if isinstance(n, ast.Subscript) and isinstance(n.slice, ast.Slice) and n.slice.upper is not None and isinstance(n.ctx, ast.Load):
+                bt = mr.r.strip_opt(mr.r.type_of(n.value, fi))
+                if bt[0] != "prim" or bt[1] not in ("bytes", "bytearray", "memoryview", "byteslike"):
+                    continue
+                n_sites += 1
+                x = norm(n.value)
+                up = n.slice.upper
+                facts = fl.facts_at.get(id(n), frozenset())
+                cu = const_int(up)
+                if cu is not None:
+                    ok = cu <= 0 or ("T", x) in facts and cu == 1 or any(f[0] == "LEN>=" and f[1] == x and f[2].lstrip("-").isdigit() and int(f[2]) >= cu for f in facts)
+                else:
+                    ok = ("LEN>=", x, norm(up)) in facts
+                run.ob("T1-no-silent-clamp", ok, {"function": fi.name, "slice": norm(n)})
+                if not ok:
+                    run.fail(Finding("T1-no-silent-clamp", fq, norm(n), f"`{norm(n)}` is taken without a dominating check that `{x}` has at least `{norm(up)}` octets: "
+                                     "a short input is silently truncated instead of raising NotEnougData", model.loc(fi.module, n)))
+    run.floor("upper-bounded input slices", n_sites, 4)
